@@ -234,7 +234,8 @@ def audit_rules(rep, fb):
             if not is_cmp:
                 continue
             lits = [x.get('str') for x in sub(n) if x['k'] == 'StringLiteral']
-            kinds = [l for l in lits if l in ('initial', 'history', 'state', 'parallel', 'final', 'transition', 'scxml')]
+            kinds = [l for l in lits if l in ('initial', 'history', 'state', 'parallel', 'final', 'transition', 'scxml', 'if', 'elseif', 'else', 'foreach', 'raise', 'send', 'cancel', 'log', 'assign',
+                                              'script', 'invoke', 'param', 'content', 'donedata', 'data', 'datamodel', 'onentry', 'onexit', 'finalize')]
             if not kinds:
                 continue
             uses_tag = any(x.get('callee', {}).get('q', '').split('::')[-1] == 'getTagName' for x in sub(n))
